@@ -386,13 +386,27 @@ def walk_model(m):
 def real_infer(headers):
     """canonical answer of the real model_from_headers, in the driver's JSON shape."""
     _L, _cm, mi, rp, _cp = _mods()
+    hs = list(headers)              # ONE list object, as a reader hands its table's header row out
     try:
-        m = mi.model_from_headers("sheet", list(headers))
+        m = mi.model_from_headers("sheet", hs)
     except Exception as e:  # noqa: BLE001
         return {"err": type(e).__name__}, None
-    if rp.is_parser_model_type(m):
-        return {"ok": {"model": walk_model(m)}}, m
-    return {"ok": walk_type(m)}, m
+    out = {"ok": {"model": walk_model(m)}} if rp.is_parser_model_type(m) else {"ok": walk_type(m)}
+    # a sheet may be read more than once (several derived sheets, several parsers over one reader): inferring again
+    # from the SAME header list gives the same model, and the list itself is as the reader wrote it
+    try:
+        m2 = mi.model_from_headers("sheet", hs)
+        out2 = {"ok": {"model": walk_model(m2)}} if rp.is_parser_model_type(m2) else {"ok": walk_type(m2)}
+    except Exception as e:  # noqa: BLE001
+        out2 = {"err": type(e).__name__}
+    if (out2 != out or hs != list(headers)) and len(REREAD_FAILS) < 40:
+        REREAD_FAILS.append({"what": "a second inference from the same header list differs from the first (the model a sheet gets depends on "
+                                     "whether it was read before)", "headers": list(headers), "headers_after_first_inference": list(hs),
+                             "first": out, "second": out2})
+    return out, m
+
+
+REREAD_FAILS: list = []
 
 
 def canon(v):
@@ -656,6 +670,8 @@ def schema_worker(job):
                     res["viol"].append({"what": "row parses differently under the inferred and the explicit model", "schema": fs, "headers": [h for h, _ in hh], "row": row, "inferred": a, "explicit": b})
     res["viol"] = sorted(res["viol"], key=lambda v: len(json.dumps(v, default=str)))[:10]
     res["ties"] = sorted(res["ties"], key=lambda v: len(json.dumps(v, default=str)))[:10]
+    res["viol"].extend(REREAD_FAILS)       # (real_infer: inference repeated on the same header list)
+    del REREAD_FAILS[:]
     return res
 
 
@@ -756,6 +772,7 @@ def noise_worker(job):
             if {"err": m["err"]} != real:
                 res["ties"].append({"what": "model error differs from real model_from_headers (malformed stream)", "headers": hs, "model": m, "real": real})
     res["ties"] = sorted(res["ties"], key=lambda v: len(json.dumps(v, default=str)))[:10]
+    del REREAD_FAILS[:]
     return res
 
 
